@@ -147,9 +147,9 @@ func VH_C15_Names4(g0, g1, g2, g3 int) { vhC15([]int{g0, g1, g2, g3}) }
 // and order independent (C06: two independent map orders give the same names).
 //
 //verif:prop C06
-//verif:param g0 0..2
-//verif:param g1 0..2
-//verif:param g2 0..2
+//verif:param g0 quick=0 thorough=0..2
+//verif:param g1 quick=1 thorough=0..2
+//verif:param g2 quick=1,2 thorough=0..2
 //verif:replay-iters 100
 func VH_C06_NamesDeterministic(g0, g1, g2 int) {
 	g := []int{g0, g1, g2}
@@ -164,4 +164,32 @@ func VH_C06_NamesDeterministic(g0, g1, g2 int) {
 	for i := range a1 {
 		vAssert(a1[i].Name == a2[i].Name, "pseudo-names do not depend on map iteration order")
 	}
+}
+
+// VH_C06_PrefixDeterministic: hasPrefix / hasSrcPrefix give the same answer for
+// every iteration order of the root map (two calls = two independent orders).
+//
+//verif:prop C06
+//verif:param np 1..6
+//verif:param n1 1..2
+//verif:param n2 1..3
+//verif:replay-iters 100
+func VH_C06_PrefixDeterministic(np, n1, n2 int) {
+	p := vString("p", np)
+	k1, k2 := vString("k1", n1), vString("k2", n2)
+	vAssume(k1 != k2)
+	m := map[string]string{k1: "x", k2: "y"}
+	a1, a2 := hasPrefix(p, m), hasPrefix(p, m)
+	vReach("prefix lookups compared")
+	vAssert(a1 == a2, "hasPrefix does not depend on map iteration order")
+	// reference: some root r with p = r + "/" + non-empty rest
+	want := false
+	for _, r := range []string{k1, k2} {
+		if len(p) > len(r)+1 {
+			want = vOr(want, vAnd(p[:len(r)] == r, p[len(r)] == '/'))
+		}
+	}
+	vAssert(a1 == want, "hasPrefix holds iff some root is a proper path prefix")
+	b1, b2 := hasSrcPrefix(p, m), hasSrcPrefix(p, m)
+	vAssert(b1 == b2, "hasSrcPrefix does not depend on map iteration order")
 }
